@@ -499,7 +499,7 @@ class RestartSim(pair.PairSim):
                 if order[mid] < last:
                     problems.append(("reorder", f"{dst} received {mid} after a later message"))
                 last = max(last, order[mid])
-                if body_fingerprint(msg) != fps[mid]:
+                if body_fingerprint(msg, "recv") != fps[mid]:
                     problems.append(("content", f"{dst} received {mid} with different content"))
             for e in sends:
                 if e["status"] == "accepted" and e["mid"] not in seen:
